@@ -69,10 +69,14 @@ def run_config(cfg, builtin_name="scale"):
     decoys = set(cfg["decoys"])
     role, form, env = cfg["role"], cfg["form"], cfg["env"]
     builtin = "builtin" in defined
+    # the probed name is spelled like one of Python's own built-ins: that namespace is not a scope of the chain
+    pyb = "python_builtins" in decoys and not builtin
     if role == "arg":
         # a built-in name that is harmless as a value; otherwise a name nobody else defines
-        name = builtin_name if builtin else "probe_nm"
-        if form == "backquoted" and not builtin:
+        name = builtin_name if builtin else ("max" if pyb else "probe_nm")
+        if form == "backquoted" and pyb:
+            name_src = "`max`"
+        elif form == "backquoted" and not builtin:
             name_src, name = "`probe nm`", "probe nm"
         elif form == "backquoted":
             name_src = "`" + builtin_name + "`"
@@ -86,7 +90,7 @@ def run_config(cfg, builtin_name="scale"):
 
         formula = f"y ~ 0 + fv_rec({name_src})"
     else:
-        name = builtin_name if builtin else "probe_fn"
+        name = builtin_name if builtin else ("abs" if pyb else "probe_fn")
         name_src = name
         formula = f"y ~ 0 + {name}.sub.fn(x)" if form == "dotted" else f"y ~ 0 + {name}(x)"
     df = pd.DataFrame({"y": np.arange(N_ROWS, dtype=float), "x": np.arange(N_ROWS, dtype=float) + 1})
@@ -138,6 +142,8 @@ def run_config(cfg, builtin_name="scale"):
             return "builtin", ""  # the first component resolved to the built-in class, which has no attribute 'sub'
         if role == "callee" and builtin_name == "Treatment" and "unrecognized type" in msg and "Treatment" in msg:
             return "builtin", ""  # the built-in Treatment class was called: its instance is not a column
+        if "builtin_function_or_method" in msg:
+            return "decoy:python_builtins", msg[:80]
         return "raise", type(e).__name__ + ": " + msg[:80]
     if role == "arg":
         if not received:
@@ -147,6 +153,8 @@ def run_config(cfg, builtin_name="scale"):
 
         if v is TRANSFORMS.get("scale") or v is ENCODINGS.get("Treatment"):
             return "builtin", ""
+        if v is max:
+            return "decoy:python_builtins", ""
         try:
             tag = int(np.asarray(v, dtype=float).ravel()[0])
         except Exception:  # pylint: disable=broad-except
@@ -156,6 +164,8 @@ def run_config(cfg, builtin_name="scale"):
         if col.ndim == 2:
             col = col[:, 0]
         tag = int(round(col[0]))
+        if pyb and np.array_equal(col, np.abs(np.asarray(df["x"], dtype=float))) and tag == 1:
+            return "decoy:python_builtins", ""  # Python's abs was called on x = 1, 2, 3, 4
         if builtin and abs(col.mean()) < 1e-9 and abs(col.std() - 1) < 1e-9:
             return "builtin", ""  # the real scale(x): mean 0, sd 1
     if tag == 7:
@@ -176,12 +186,13 @@ def _replay(case):
     got, err = run_config(cfg, bname)
     probed = bool(LAST_PROBED[0])
     want = case["winner"]
-    if cfg["form"] == "backquoted" and "builtin" not in cfg["defined"] and "locals" in cfg["defined"]:
+    nonident = cfg["form"] == "backquoted" and "builtin" not in cfg["defined"] and "python_builtins" not in cfg["decoys"]
+    if nonident and "locals" in cfg["defined"]:
         # 'probe nm' cannot be a Python local: that scope is effectively undefined for this name
         d2 = [s for s in cfg["defined"] if s != "locals"]
         order = ["data", "builtin", "locals", "globals", "extra"]
         want = next((s for s in order if s in d2), "raise")
-    effective = [x for x in cfg["defined"] if not (x == "locals" and cfg["form"] == "backquoted" and "builtin" not in cfg["defined"])]
+    effective = [x for x in cfg["defined"] if not (x == "locals" and nonident)]
     case["_event"] = {"role": cfg["role"], "defined": effective, "probed": probed, "winner": got.split(":")[0] if got.startswith("decoy") else got}
     if got != want:
         return ({"clause": "wrong_scope_wins" if got != "raise" and want != "raise" else ("undefined_name_resolved" if want == "raise" else "defined_name_not_found"),
@@ -198,7 +209,8 @@ def main(tier, seed):
     common.use_repo()
     rep = Report("C11", tier, seed)
     rep.rule = (
-        "Complete: all 1536 configurations of Scopes_MC (2^5 scope subsets (data only for arguments) x 4 decoy subsets x role x "
+        "Complete: all 3072 configurations of Scopes_MC (2^5 scope subsets (data only for arguments) x 8 decoy subsets (other frames' locals, other frames' globals, "
+        "a name spelled like a Python built-in) x role x "
         "name form x env 0..3); each terminal state is replayed with sentinels through four synthetic caller modules. "
         "Non-trivial = configurations in which at least two scopes (or a decoy) define the name."
     )
